@@ -341,7 +341,7 @@ Qed.
 
 Lemma flat_walk max : forall c n, (n + height c <= max)%nat -> walk max n (flat (N.of_nat n) c) = Some n.
 Proof.
-  induction c as [a t0 t1 kids IH] using call_ind'. intros n Hh.
+  induction c as [e a t0 t1 kids IH] using call_ind'. intros n Hh.
   cbn [height] in Hh. fold (heights kids) in Hh.
   cbn [flat]. rewrite walk_cons. cbn [walk r_type r_depth].
   rewrite N.eqb_refl. replace (n <? max)%nat with true by lia. cbn [andb].
